@@ -16,14 +16,17 @@ import (
 //     that child;
 //  2. shrink: lists and maps with several entries are reduced to a single
 //     failing entry when one exists;
-//  3. substitute: every atom leaf of the remaining datum is replaced in turn
-//     by the distinguished 32-bit integer; the atom kinds whose replacement
-//     makes the failure disappear are blamed: "nested/<letters>" (or
-//     "top/<letter>" when the datum itself is an atom). For a blamed 'm' the
-//     carried value is replaced by an integer too: if the failure persists
-//     the blame is "m", otherwise "m:<shape of the carried type>";
-//  4. if no single replacement helps, the shape of the datum is the detail:
-//     "shape/<shape>".
+//  3. simplify: every node of the remaining datum (pre-order, root
+//     excluded) is replaced by the distinguished 32-bit integer whenever the
+//     failure persists after the replacement; an 'm' that cannot be replaced
+//     gets its carried value replaced by an integer when the failure
+//     persists;
+//  4. what could not be replaced is necessary for the failure: if atom kinds
+//     other than 'i' remain the detail is "nested/<their letters>" (an 'm'
+//     whose carried value matters is written "m:<shape of the carried
+//     type>"); otherwise the structure itself is to blame and the detail is
+//     "shape/<shape of the simplified datum>". A failing atom taken alone is
+//     "top/<letter>".
 //
 // topOK says whether a datum of that type may be evaluated as a top-level
 // case (some entry points only exist for composite signatures).
@@ -31,7 +34,81 @@ func Blame(d *refmodel.Datum, fails func(*refmodel.Datum) bool, topOK func(*refm
 	if topOK == nil {
 		topOK = func(*refmodel.Type) bool { return true }
 	}
-	// 1. descend
+	intT := refmodel.Atom('i')
+	for round := 0; round < 8; round++ {
+		before := d
+		d = blameDescend(d, fails, topOK)
+		d = shrink(d, fails)
+		if d.T.IsAtom() {
+			break
+		}
+		d = blameSimplify(d, fails, intT)
+		if d == before {
+			break
+		}
+	}
+	if d.T.IsAtom() {
+		if d.T.Kind == refmodel.Value && d.Dyn.T.Kind != refmodel.Int32 {
+			if nd := Dist(d.T); fails(nd) {
+				return "top/m", nd
+			}
+			return "top/m:" + d.Dyn.T.Shape(), d
+		}
+		return "top/" + d.T.Kind.Letter(), d
+	}
+	// 4. what remains is necessary
+	need := map[string]bool{}
+	for _, path := range nodes(d, nil) {
+		cur := d.Child(path)
+		if !cur.T.IsAtom() || cur.T.Kind == refmodel.Int32 {
+			continue
+		}
+		l := cur.T.Kind.Letter()
+		if cur.T.Kind == refmodel.Value && cur.Dyn.T.Kind != refmodel.Int32 {
+			l = "m:" + cur.Dyn.T.Shape()
+		}
+		need[l] = true
+	}
+	if len(need) > 0 {
+		var ls []string
+		for l := range need {
+			ls = append(ls, l)
+		}
+		sort.Strings(ls)
+		return "nested/" + strings.Join(ls, "+"), d
+	}
+	return "shape/" + datumShape(d), d
+}
+
+// datumShape is the shape of the data actually present: the element type of
+// an empty list or map carries no byte and is left out.
+func datumShape(d *refmodel.Datum) string {
+	switch d.T.Kind {
+	case refmodel.List:
+		if len(d.Elems) == 0 {
+			return "[]"
+		}
+		return "[" + datumShape(d.Elems[0]) + "]"
+	case refmodel.Map:
+		if len(d.Elems) == 0 {
+			return "{}"
+		}
+		return "{" + datumShape(d.Elems[0]) + datumShape(d.Elems[1]) + "}"
+	case refmodel.Tuple, refmodel.Struct:
+		s := "("
+		for _, c := range d.Elems {
+			s += datumShape(c)
+		}
+		s += ")"
+		if d.T.Kind == refmodel.Struct {
+			s += "<>"
+		}
+		return s
+	}
+	return d.T.Kind.Letter()
+}
+
+func blameDescend(d *refmodel.Datum, fails func(*refmodel.Datum) bool, topOK func(*refmodel.Type) bool) *refmodel.Datum {
 descend:
 	for {
 		var kids []*refmodel.Datum
@@ -53,97 +130,43 @@ descend:
 		}
 		break
 	}
-	// 2. shrink
-	d = shrink(d, fails)
-	if d.T.IsAtom() {
-		return "top/" + atomDetail(d, nil, d, fails), d
-	}
-	// 3. substitute, kind by kind: all leaves of one atom kind at once
-	leaves := atomLeaves(d, nil)
-	byKind := map[string][][]int{}
-	var kinds []string
-	for _, path := range leaves {
-		l := d.Child(path).T.Kind.Letter()
-		if l == "i" {
-			continue
-		}
-		if _, ok := byKind[l]; !ok {
-			kinds = append(kinds, l)
-		}
-		byKind[l] = append(byKind[l], path)
-	}
-	sort.Strings(kinds)
-	blamed := map[string]bool{}
-	for _, l := range kinds {
-		nd, ok := d, true
-		for _, path := range byKind[l] {
-			if nd, ok = refmodel.Replace(nd, path, Dist(refmodel.Atom('i'))); !ok {
+	return d
+}
+
+func blameSimplify(d *refmodel.Datum, fails func(*refmodel.Datum) bool, intT *refmodel.Type) *refmodel.Datum {
+	for changed := true; changed; {
+		changed = false
+		for _, path := range nodes(d, nil) {
+			cur := d.Child(path)
+			if cur.T.Kind == refmodel.Int32 {
+				continue
+			}
+			if nd, ok := refmodel.Replace(d, path, Dist(intT)); ok && fails(nd) {
+				d, changed = nd, true
 				break
 			}
-		}
-		if !ok || fails(nd) {
-			continue
-		}
-		det := l
-		if l == "m" {
-			// does the carried value matter? give every 'm' an integer
-			nd, ok = d, true
-			plain := true
-			for _, path := range byKind[l] {
-				if d.Child(path).Dyn.T.Kind != refmodel.Int32 {
-					plain = false
-				}
-				if nd, ok = refmodel.Replace(nd, path, Dist(refmodel.Atom('m'))); !ok {
+			if cur.T.Kind == refmodel.Value && cur.Dyn.T.Kind != refmodel.Int32 {
+				if nd, ok := refmodel.Replace(d, path, Dist(cur.T)); ok && fails(nd) {
+					d, changed = nd, true
 					break
 				}
 			}
-			if ok && !plain && !fails(nd) {
-				shapes := map[string]bool{}
-				for _, path := range byKind[l] {
-					shapes[d.Child(path).Dyn.T.Shape()] = true
-				}
-				var ss []string
-				for s := range shapes {
-					ss = append(ss, s)
-				}
-				sort.Strings(ss)
-				det = "m:" + strings.Join(ss, ",")
-			}
 		}
-		blamed[det] = true
 	}
-	if len(blamed) > 0 {
-		var ls []string
-		for l := range blamed {
-			ls = append(ls, l)
-		}
-		sort.Strings(ls)
-		return "nested/" + strings.Join(ls, "+"), d
-	}
-	return "shape/" + d.T.Shape(), d
+	return d
 }
 
-func atomDetail(root *refmodel.Datum, path []int, leaf *refmodel.Datum, fails func(*refmodel.Datum) bool) string {
-	l := leaf.T.Kind.Letter()
-	if leaf.T.Kind != refmodel.Value || leaf.Dyn.T.Kind == refmodel.Int32 {
-		return l
-	}
-	nd, ok := refmodel.Replace(root, path, Dist(leaf.T))
-	if ok && !fails(nd) {
-		return "m:" + leaf.Dyn.T.Shape()
-	}
-	return l
-}
-
-// atomLeaves lists the paths of the atom leaves of d (an 'm' is a leaf; the
-// inside of an object is not entered).
-func atomLeaves(d *refmodel.Datum, prefix []int) [][]int {
-	if d.T.IsAtom() {
-		return [][]int{append([]int(nil), prefix...)}
-	}
+// nodes lists the paths of all nodes below the root in pre-order (an 'm' or
+// an 'o' is not entered).
+func nodes(d *refmodel.Datum, prefix []int) [][]int {
 	var out [][]int
+	if d.T.IsAtom() {
+		return nil
+	}
 	for i, c := range d.Elems {
-		out = append(out, atomLeaves(c, append(prefix, i))...)
+		p := append(append([]int(nil), prefix...), i)
+		out = append(out, p)
+		out = append(out, nodes(c, p)...)
 	}
 	return out
 }
